@@ -120,4 +120,13 @@ def splitRun {S C : Type} (A B : C → S → S) : List (Bool × C) → S → S
   | (false, c) :: r, s => splitRun A B r (A c s)
   | (true, c) :: r, s => splitRun A B r (B c s)
 
+/-- the WHFast-shaped step (safe mode): half Kepler drift, interaction kick, half Kepler drift -/
+def whStep {S C : Type} (kepler inter : C → S → S) (half : C → C) (τ : C) (s : S) : S :=
+  kepler (half τ) (inter τ (kepler (half τ) s))
+
+/-- n applications -/
+def iter {S : Type} (f : S → S) : Nat → S → S
+  | 0, s => s
+  | n + 1, s => iter f n (f s)
+
 end RV.Reversal
